@@ -70,9 +70,20 @@ Definition res_eq (a b : presult) : Prop :=
   | _, _ => False
   end.
 
+(* The record a flow stands for: the Standard sets query := "" (resp. fragment := "") BEFORE it
+   enters the query (fragment) state, in every transition into it; the C++ sets the part when it
+   saves it.  So a flow into Query / Fragment stands for the machine state whose record already
+   has the empty query / fragment. *)
+Definition flow_url (st : pstate) (u : url) : url :=
+  match st with
+  | Query => set_query u (Some [])
+  | Fragment => set_fragment u (Some [])
+  | _ => u
+  end.
+
 Definition eval_flow (f : flow) (r : presult) : Prop :=
   match f with
-  | Go st p u => is_suffix p -> forall at_ pw, exists r', eval (at_state st p u at_ pw) r' /\ res_eq r r'
+  | Go st p u => is_suffix p -> forall at_ pw, exists r', eval (at_state st p (flow_url st u) at_ pw) r' /\ res_eq r r'
   | Stop r' => res_eq r' r
   end.
 
